@@ -952,7 +952,10 @@ class FuncEmitter:
                 tmps.append(t)
             for ph, t in zip(phis, tmps):
                 self.out.append('%s = %s;' % (self.lname(ph.res), t))
-        self.out.append('goto %s;' % self.label(dest))
+        if dest == getattr(self, 'selfloop', None) and blk.label == dest:
+            self.out.append('continue;   /* back edge of the loop under contract */')
+        else:
+            self.out.append('goto %s;' % self.label(dest))
 
     # ---------------------------------------------------------- calls
     def emit_call(self, ins):
@@ -1319,13 +1322,53 @@ class FuncEmitter:
         ctx = self.ctx
         self.blockmap = {b.label: b for b in f.blocks}
         body = []
+        # loop contracts (contract option loops=[...]): clause text per loop, in order of appearance of the loop headers.  Supported shape: a
+        # single-block natural loop (a block that branches to itself - what clang's loop rotation leaves of `for (i = 0; i < n; ++i) t = f(t);`),
+        # emitted as  while (1) <clauses> { block; exit edges: goto, back edge: continue }  so that goto-instrument --apply-loop-contracts
+        # sees the clauses at the loop head.  PHI(k) in a clause names the k-th phi of the header (role-based: no SSA numbers in contracts);
+        # ARG(k) the k-th parameter of the function.  Any other loop shape under a loop contract is outside the table (exit 2).
+        lcs = list((getattr(ctx, 'loop_contracts', None) or {}).get(f.name, []))
+        self.loops_emitted = 0
         for b in f.blocks:
             self.out = []
+            term = b.instrs[-1] if b.instrs else None
+            is_self = bool(term is not None and term.op == 'br' and b.label in [term.extra.get(k) for k in ('dest', 't', 'f')])
+            self.selfloop = b.label if (is_self and lcs) else None
+            if self.selfloop is not None:
+                preds = [x.label for x in f.blocks if x.instrs and x.instrs[-1].op in ('br', 'switch') and
+                         b.label in ([x.instrs[-1].extra.get(k) for k in ('dest', 't', 'f', 'default')] + [l for _, l in x.instrs[-1].extra.get('cases', [])])]
+                if sorted(set(preds) - {b.label}) and len(set(preds) - {b.label}) != 1:
+                    raise Unsupported('loop header %s of %s has several entries: not a single-block loop with one preheader' % (b.label, f.name))
             for ins in b.instrs:
                 self.out.append('/* %s */' % ins.src.replace('*/', '* /').replace('/*', '/ *')[:160])
                 self.emit_instr(ins, b)
             body.append('%s: ;' % self.label(b.label))
-            body.extend('  ' + l for l in self.out)
+            if self.selfloop is not None:
+                if self.loops_emitted >= len(lcs):
+                    raise Unsupported('function %s has more self-loops than loop contracts' % f.name)
+                phis = [self.lname(i.res) for i in b.instrs if i.op == 'phi']
+                phis_i = [self.lname(i.res) for i in b.instrs if i.op == 'phi' and self.mod.resolve(i.ty)[0] == 'int']
+                phis_f = [self.lname(i.res) for i in b.instrs if i.op == 'phi' and self.mod.resolve(i.ty)[0] in ('float', 'double')]
+                params = [self.lname(nm) for (t, nm, at) in f.params]
+
+                def role(m):
+                    k = int(m.group(2))
+                    src = {'PHI': phis, 'PHI_I': phis_i, 'PHI_F': phis_f, 'ARG': params}[m.group(1)]
+                    if k >= len(src):
+                        raise Unsupported('loop contract of %s refers to %s(%d): the loop header has %d phis' % (f.name, m.group(1), k, len(src)))
+                    return src[k]
+                clause = re.sub(r'\b(PHI_I|PHI_F|PHI|ARG)\((\d+)\)', role, lcs[self.loops_emitted])
+                self.loops_emitted += 1
+                body.append('  while (1)')
+                body.append('  ' + clause)
+                body.append('  {')
+                body.extend('    ' + l for l in self.out)
+                body.append('  }')
+            else:
+                body.extend('  ' + l for l in self.out)
+        self.selfloop = None
+        if lcs and self.loops_emitted != len(lcs):
+            raise Unsupported('function %s: %d loop contract(s) given, %d single-block loop(s) found' % (f.name, len(lcs), self.loops_emitted))
         lines = [ctx.signature(f), '{']
         # param copies into locals of internal type
         for (t, nm, at) in f.params:
@@ -1404,10 +1447,11 @@ def global_init(ctx, fe, name, g):
     return '%s %s %s = %s;' % (qual, ct, ctx.gname(name), e)
 
 
-def translate(mod, roots=None, prefix='', poison_flags=True, only=None, uf_float=()):
+def translate(mod, roots=None, prefix='', poison_flags=True, only=None, uf_float=(), loop_contracts=None):
     """returns (c_text, info)"""
     ctx = Ctx(mod, prefix=prefix, poison_flags=poison_flags)
     ctx.uf_float = set(uf_float)
+    ctx.loop_contracts = loop_contracts or {}
     if roots is None:
         names = [n for n in mod.order if mod.funcs[n].defined]
     else:
@@ -1430,6 +1474,8 @@ def translate(mod, roots=None, prefix='', poison_flags=True, only=None, uf_float
         if kind == 'global':
             globs.append(global_init(ctx, dummy, n, mod.globals[n]))
     head = ['/* generated by ll2c.py - do not edit */', '#include "ll2c_rt.h"', '#include "ll2c_libm.h"']
+    if ctx.loop_contracts:
+        head.append('#include "spec_loopinv.h"')
     tds = [ctx.typedefs[k] for k in ctx.typedef_order]
     ufd = ['#ifdef LL2C_CBMC'] + sorted(ctx.uf_decls) + ['#endif'] if ctx.uf_decls else []
     text = '\n'.join(head + ufd + tds + protos + ext + globs + bodies) + '\n'
